@@ -40,6 +40,14 @@ ASSUMPTIONS = [
     "amgcl_params_setf transports a float: a double-typed parameter receives the 9-digit decimal text of the float "
     "(identical on the C and the C++ side, which both put a float); cases use dyadic values",
     "amgcl_*_report only prints; not compared",
+    "histories: the handle values given to the model are the address classes the implementation printed (so a handle "
+    "value reused by the allocator after a destroy is the same number in the model); the model's buffer addresses are the "
+    "buffer ids of the script (addresses are irrelevant in the model: C20_H1_outputs_depend_on_contents_only)",
+    "histories: a create whose C++ constructor throws returns no handle: the exception kind is compared with the C++ "
+    "constructor on the same contents, the later steps of the script on that slot are not executed; exceptions of "
+    "apply/solve calls are compared by kind together with the bits x holds afterwards",
+    "histories run twice: ASan defaults (freed blocks quarantined: use-after-destroy is detected) and quarantine off "
+    "(freed handle addresses are handed out again at once)",
 ]
 RULE = ("cases derived from VERIF_SEED by tools/props/C20.py; distinct = distinct case payload; non-trivial = the C "
         "interface returned a solve result / a matrix with a non-zero entry / a non-empty tree")
@@ -145,7 +153,7 @@ def run(ctx, cases_override=None):
     if hl:
         hf, info = capi_hist.run(ctx, hl, env)
         fails += hf
-        ctx["log"].append(("hist: %(histories)d histories, %(calls)d calls compared, %(addr_reuse)d handle addresses reused" % info, 0))
+        ctx["log"].append(("hist: %(histories)d histories, %(calls)d calls compared, %(addr_reuse)d handle addresses reused, %(ctor_exc)d constructor exceptions" % info, 0))
     sl = [l for l in lines if l.split(" ", 2)[1] == "solve"]
     out = ctx["run_driver"](ctx["cpp"]["capi"], sl, env_extra=env, shards=12, timeout=600)
     account(ctx, sl, out, nontrivial=lambda op, pin, o: bool(o) and " it=" in o)
